@@ -104,6 +104,21 @@ pub fn cmd_builder(v: &Value) -> Value {
         Ok(l) => json!({"ok": lm_json(&l)}),
         Err(e) => json!({"err": e.to_string()}),
     });
+    if let Some(names) = v.get("shadow_prices").and_then(|n| n.as_array()) {
+        // the builder's dual-reporting solver: prices are read back through BuilderSolution::shadow_price
+        let names: Vec<String> = names.iter().filter_map(|n| n.as_str().map(|s| s.to_string())).collect();
+        let b2 = b.clone();
+        let vars2 = vars.clone();
+        out["clarabel"] = timed(move || match b2.solve_with(rooc::Clarabel) {
+            Ok(s) => {
+                let prices: Vec<Value> = names.iter().map(|n| json!([n, s.shadow_price(n).map(f)])).collect();
+                let vals: Vec<Value> = vars2.iter().map(|h| json!(s.numeric_value(*h).map(f))).collect();
+                json!({"ok": true, "value": f(s.value()), "prices": prices, "values": vals})
+            }
+            Err(rooc::BuilderError::Solver(e)) => solver_err_json(&e),
+            Err(rooc::BuilderError::Linearization(e)) => json!({"ok": false, "kind": "Linearization", "msg": e.to_string()}),
+        });
+    }
     if v.get("solve").and_then(|s| s.as_bool()).unwrap_or(false) {
         let exprs: Vec<Expr> = v
             .get("eval")
